@@ -812,10 +812,13 @@ impl<'ast, 'res> Resolver<'ast, 'res> {
                 let l = self.infer_expr_type(lhs);
                 let r = self.infer_expr_type(rhs);
                 match op {
+                    // Numbers add, strings concatenate (a number operand is formatted); the
+                    // run time has no case for any other operand, whatever the other side is.
                     BinaryOp::Add => match (l, r) {
-                        (Some(ValueType::String | ValueType::Dynamic), ..)
-                        | (.., Some(ValueType::String | ValueType::Dynamic))
-                        | (Some(ValueType::Number), Some(ValueType::Number)) => {}
+                        (
+                            Some(ValueType::String | ValueType::Number | ValueType::Dynamic),
+                            Some(ValueType::String | ValueType::Number | ValueType::Dynamic),
+                        ) => {}
                         _ => {
                             self.emit_error(
                                 *span,
@@ -866,10 +869,13 @@ impl<'ast, 'res> Resolver<'ast, 'res> {
                             }],
                         ),
                     },
+                    // Both operands are booleans (`null` is falsy); a null or dynamic operand
+                    // on one side does not make a number or a string on the other side valid.
                     BinaryOp::And | BinaryOp::Or => match (l, r) {
-                        (Some(ValueType::Bool), Some(ValueType::Bool))
-                        | (Some(ValueType::Null | ValueType::Dynamic), ..)
-                        | (.., Some(ValueType::Null | ValueType::Dynamic)) => {}
+                        (
+                            Some(ValueType::Bool | ValueType::Null | ValueType::Dynamic),
+                            Some(ValueType::Bool | ValueType::Null | ValueType::Dynamic),
+                        ) => {}
                         _ => {
                             self.emit_error(
                                 *span,
